@@ -46,6 +46,13 @@ def cases(draw):
             v["opts"] = {**(v.get("opts") or {}), **extra[i]}
         return v
 
+    if draw(st.integers(0, 3)) == 0 and case["n"] >= 4:
+        # a workflow that is rejected on the scheduler's side with every task cached: the root's
+        # result subscripts an int lazily. The first real run fails but leaves everything cached.
+        case["init"][0] = {"k": "sub", "callee": 1}
+        case["ops"] = [["run", []]] + [o for o in case["ops"] if not (o[0] == "install" and o[1] == 0)][:5]
+        if case["ops"][-1][0] != "run":
+            case["ops"].append(["run", []])
     case["init"] = [dress(i, v) for i, v in enumerate(case["init"])]
     case["ops"] = [[op[0], op[1], dress(op[1], op[2])] if op[0] == "install" else op for op in case["ops"]]
     return case
